@@ -182,16 +182,18 @@ pub const FORCED: [(&str, &str); 6] = [
 ];
 
 fn positions(rng: &mut Rng, n: usize, bench: bool) -> Vec<(String, Vec<String>)> {
-    let mut v: Vec<(String, Vec<String>)> = vec![];
+    let mut seeds: Vec<(String, Vec<String>)> = vec![];
     for f in super::walk::SEEDS.iter() {
-        v.push((f.to_string(), vec![]));
+        seeds.push((f.to_string(), vec![]));
     }
     if bench {
         for f in crate::bench_fens() {
-            v.push((f.to_string(), vec![]));
+            seeds.push((f.to_string(), vec![]));
         }
     }
-    while v.len() < n {
+    // positions with a game history, as many as bare seeds (they are interleaved below, so that a small `count` gets both kinds)
+    let mut v: Vec<(String, Vec<String>)> = vec![];
+    while v.len() < n.max(2) {
         let fen = super::walk::SEEDS[rng.below(super::walk::SEEDS.len() as u64) as usize];
         let mut b = Board::from_fen(fen);
         let mut moves = vec![];
@@ -219,9 +221,66 @@ fn positions(rng: &mut Rng, n: usize, bench: bool) -> Vec<(String, Vec<String>)>
         if b.get_legal_moves().is_empty() {
             continue;
         }
+        // every third history ends with both sides shuffling a piece out and back: the ROOT itself then repeats the position of four plies earlier
+        // every third one ends with only the first half of such a shuffle (each side one quiet move): the search itself can then complete the repetition two plies below the root
+        let half = v.len() % 3 == 1;
+        if v.len() % 3 == 0 || half {
+            let quiet = |b: &mut Board, rng: &mut Rng| -> Option<Ply> {
+                let l: Vec<Ply> = b.get_legal_moves().into_iter().filter(|m| m.captured_piece.is_none() && m.promoted_to.is_none() && !m.is_castles && !matches!(m.piece, Kind::Pawn(_))).collect();
+                if l.is_empty() { None } else { Some(l[rng.below(l.len() as u64) as usize]) }
+            };
+            let back = |b: &mut Board, m: &Ply| -> Option<Ply> {
+                b.get_legal_moves().into_iter().find(|x| x.start == m.dest && x.dest == m.start && x.captured_piece.is_none() && x.promoted_to.is_none())
+            };
+            let mut extra = vec![];
+            let mut made = 0;
+            let mut ok = false;
+            if let Some(a) = quiet(&mut b, rng) {
+                b.make_move(a);
+                made += 1;
+                extra.push(a.to_notation());
+                if let Some(c) = quiet(&mut b, rng) {
+                    b.make_move(c);
+                    made += 1;
+                    extra.push(c.to_notation());
+                    if half {
+                        ok = back(&mut b, &a).is_some();
+                    } else if let Some(a2) = back(&mut b, &a) {
+                        b.make_move(a2);
+                        made += 1;
+                        extra.push(a2.to_notation());
+                        if let Some(c2) = back(&mut b, &c) {
+                            b.make_move(c2);
+                            made += 1;
+                            extra.push(c2.to_notation());
+                            ok = true;
+                        }
+                    }
+                }
+            }
+            if ok && !b.get_legal_moves().is_empty() {
+                moves.extend(extra);
+            } else {
+                for _ in 0..made {
+                    b.unmake_move();
+                }
+            }
+        }
         v.push((fen.to_string(), moves));
     }
-    v
+    let mut out = vec![];
+    let (mut i, mut j) = (0usize, 0usize);
+    while out.len() < n.max(seeds.len()) && (i < seeds.len() || j < v.len()) {
+        if i < seeds.len() {
+            out.push(seeds[i].clone());
+            i += 1;
+        }
+        if j < v.len() {
+            out.push(v[j].clone());
+            j += 1;
+        }
+    }
+    out
 }
 
 /// `--mode plain|off|budget|stop|keep|file` `--count N` `--maxdepth D` `--shard i --of n --seed S`
@@ -431,6 +490,52 @@ pub fn search_stream(args: &[String]) {
                 let fen = render_fen(&b);
                 for d in 1..=maxdepth {
                     run_case(&Case { fen: fen.clone(), moves: vec![], depth: d, nodes: None, stop: 0, cache: "off", tag: String::new(), tc: NO_TC, vdiv: 0 });
+                }
+            }
+        }
+        "kb" => {
+            // a full search of a position, then — cache kept — searches of positions two plies further on (which the first
+            // search met as inner nodes) cut short inside their first iteration by tiny node budgets and early stops:
+            // whatever the cache says about such a position, the answer must be one of its legal moves
+            for (fen, moves0) in pos.iter().take(count) {
+                if !mine(&mut idx) {
+                    continue;
+                }
+                run_case(&Case { fen: fen.clone(), moves: moves0.clone(), depth: maxdepth, nodes: None, stop: 0, cache: "fresh", tag: String::new(), tc: NO_TC, vdiv: 0 });
+                let Some(mut b) = setup_board(fen, moves0) else { continue };
+                let first = b.get_legal_moves();
+                let mut tried = 0;
+                for m1 in first.iter().take(12) {
+                    b.make_move(*m1);
+                    let replies = b.get_legal_moves();
+                    // prefer replies that give check or leave a pinned / checked side to move
+                    let mut pick: Option<Ply> = None;
+                    for m2 in &replies {
+                        b.make_move(*m2);
+                        let chk = b.is_in_check(b.current_turn);
+                        b.unmake_move();
+                        if chk {
+                            pick = Some(*m2);
+                            break;
+                        }
+                    }
+                    let pick = pick.or_else(|| if replies.is_empty() { None } else { Some(replies[rng.below(replies.len() as u64) as usize]) });
+                    b.unmake_move();
+                    let Some(m2) = pick else { continue };
+                    let mut mv = moves0.clone();
+                    mv.push(m1.to_notation());
+                    mv.push(m2.to_notation());
+                    let (nodes, stop) = match tried % 4 {
+                        0 => (Some(1), 0),
+                        1 => (Some(2), 0),
+                        2 => (None, 1),
+                        _ => (Some(3 + rng.below(6)), 0),
+                    };
+                    run_case(&Case { fen: fen.clone(), moves: mv, depth: maxdepth, nodes, stop, cache: "keep", tag: String::new(), tc: NO_TC, vdiv: 0 });
+                    tried += 1;
+                    if tried >= 6 {
+                        break;
+                    }
                 }
             }
         }
